@@ -561,7 +561,7 @@ def corr_cmif_case(ctx, fname, call, S, freq, nSv, lim):
 # --- default values as regenerated obligations (Generated/Defaults.lean <- harness/translate_defaults.py; stream defaults[...])
 import defaults_stream  # noqa: E402
 from common import all_pre_build as pre_build  # noqa: E402,F401,F811  (runs EVERY translate_*.py)
-LEAN_MODULES += ["PyomaVerif.Props.WiringDefaultsC20", "PyomaVerif.Props.WiringDefaultsC11"]
+LEAN_MODULES += ["PyomaVerif.Props.WiringDefaultsC20", "PyomaVerif.Props.WiringDefaultsLab"]
 THEOREMS += ["PV.WiringDefaults.C20_plot_defaults", "PV.WiringDefaults.C11_label_literals"]
 
 
